@@ -218,6 +218,23 @@ CHECKS.update({
         engine="goversion"),
 })
 
+CHECKS.update({
+    "C20": dict(
+        category="model_checking",
+        text="Scopes.tla enumerates what may be declared under a subject's spelling at every level of Go's scope chain (package "
+             "block, file block = imports, parameters, local block), the call-site shape and variadic-ness (288 cases) with the "
+             "predictions WellFormed / Resolved / RealAPI; OnlyReal holds for object-based recognition and is refuted for recognition "
+             "by spelling. Every case is rendered for 22 subjects (append, new, len, copy; regexp.Compile/MustCompile, sort.Slice, "
+             "filepath.Join, flag.String, log.Fatal, os.Exit, strings/bytes/fmt/http/math/reflect helpers of rule patterns) as a Go "
+             "package (1 700+ programs); the model's predictions must agree with go/types on every one, else the run is undecided; all "
+             "checkers analyse every well-formed program; a diagnostic of the subject's checker on the trigger line for a callee that "
+             "go/types resolves to a user-defined namesake is a violation.",
+        design_ref="DESIGN.md section 6 C20, Appendix A.11",
+        note="Three rule-based checkers that name builtins in their patterns are known findings (not expressible in the rules DSL).",
+        technique="exhaustive TLC enumeration of the scope space, validated against go/types, replayed on the real checkers",
+        engine="scopes"),
+})
+
 NOT_YET = "check not built yet (construction in progress; see DESIGN.md section 6)"
 NOT_APPLICABLE = {}
 
